@@ -13,7 +13,7 @@
  * Decided for every dirty/clean handle, every outcome of loading, recovering and
  * re-opening:
  *   - pending modifications of the open handle are flushed BEFORE the replay
- *     starts and never afterwards: no ext2fs_flush / ext2fs_close of the stale
+ *     starts, with a SYNCING flush (no EXT2_FLAG_FLUSH_NO_SYNC), and never afterwards: no ext2fs_flush / ext2fs_close of the stale
  *     handle after jbd2_journal_recover() was entered (its in-memory group
  *     descriptors, bitmaps and superblock would overwrite replayed blocks);
  *   - the journal superblock is never written before recovery has returned, and
@@ -43,7 +43,7 @@ struct vf_in {
 	long load_rc, recover_rc, open_rc, load2_rc;
 	unsigned char nreplay;		/* replay writes issued by recovery (0..3) */
 	unsigned char fail_after;	/* on failure: writes issued before giving up */
-	unsigned char dirty, rw, separate_io;
+	unsigned char dirty, rw, separate_io, needs_recovery;
 	__u32 seq, jstart, failed_commit;
 	__u16 new_state;		/* s_state of the superblock read back by the re-open */
 	__u16 old_state;
@@ -160,12 +160,19 @@ int jbd2_journal_recover(journal_t *journal)
 }
 
 /* STUB: ext2fs_flush / ext2fs_close / ext2fs_free / ext2fs_mmp_stop / ext2fs_open record which handle they were applied to */
-errcode_t ext2fs_flush(ext2_filsys fs)
+static int vf_last_flush_nosync = -1, vf_last_flush_recover = -1;
+/* STUB: ext2fs_flush2 (and ext2fs_flush = flags 0) records the handle, its flags argument and the needs_recovery bit of the superblock image it writes; flush_sync (C04) decides that the real one ends with a device sync iff FLUSH_NO_SYNC is absent */
+errcode_t ext2fs_flush2(ext2_filsys fs, int flags)
 {
-	vf_log(fs == &vf_fs_old ? EV_FLUSH_OLD : EV_FLUSH_NEW, 0, 0);
+	vf_log(fs == &vf_fs_old ? EV_FLUSH_OLD : EV_FLUSH_NEW, (__u32) flags, 0);
+	if (fs == &vf_fs_old) {
+		vf_last_flush_nosync = (flags & EXT2_FLAG_FLUSH_NO_SYNC) != 0;
+		vf_last_flush_recover = (fs->super->s_feature_incompat & EXT3_FEATURE_INCOMPAT_RECOVER) != 0;
+	}
 	fs->flags &= ~EXT2_FLAG_DIRTY;
 	return 0;
 }
+errcode_t ext2fs_flush(ext2_filsys fs) { return ext2fs_flush2(fs, 0); }
 errcode_t ext2fs_close(ext2_filsys fs) { (void) fs; vf_log(EV_CLOSE, 0, 0); return 0; }
 errcode_t ext2fs_close2(ext2_filsys fs, int flags) { (void) fs; (void) flags; vf_log(EV_CLOSE, 0, 0); return 0; }
 void ext2fs_free(ext2_filsys fs)
@@ -211,7 +218,7 @@ int main(void)
 	vf_jio.manager = &vf_mgr;
 	vf_fsio_new.manager = &vf_mgr;
 	vf_sb_old.s_feature_compat = EXT3_FEATURE_COMPAT_HAS_JOURNAL;
-	vf_sb_old.s_feature_incompat = EXT3_FEATURE_INCOMPAT_RECOVER;
+	vf_sb_old.s_feature_incompat = IN.needs_recovery ? EXT3_FEATURE_INCOMPAT_RECOVER : 0;
 	vf_sb_old.s_state = IN.old_state;
 	vf_fs_old.super = &vf_sb_old;
 	vf_fs_old.io = &vf_fsio;
@@ -276,6 +283,10 @@ int main(void)
 		}
 	}
 	PROP(flushes_old_before == (IN.dirty ? 1 : 0), "pending modifications of a dirty handle are flushed exactly once, before the replay");
+	if (IN.dirty) {
+		PROP(vf_last_flush_nosync == 0, "the flush before the replay is a syncing one: the pending state (needs_recovery flag, cached journal blocks) is durable before the first replayed block is written");
+		PROP(vf_last_flush_recover == (IN.needs_recovery != 0), "the flushed superblock image carries the in-memory needs_recovery flag");
+	}
 	PROP(freed == 1 && opened == 1, "the stale handle is dropped and the filesystem re-opened exactly once");
 	PROP((vf_open_flags & EXT2_FLAG_RW) != 0, "the re-open is read-write");
 	if (!IN.load_rc && !IN.recover_rc)
